@@ -16,7 +16,7 @@
 From Coq Require Import List Arith Bool.
 Import ListNotations.
 From ZI Require Import Model.Ro Model.Adapter Model.Components Spec.Components Proofs.Components
-  Proofs.ComponentsLookup.
+  Proofs.ComponentsLookup Gen.ComponentsKernel Proofs.ComponentsKernel.
 
 (* registered*() list exactly the live registrations: each listing IS the ledger of the history
    (in order; the ledger is defined by filter / append / replace on plain lists) *)
@@ -172,6 +172,104 @@ Theorem C16_queryUtility_from_listings : forall (W : world) (hashable : value ->
 Proof. exact queryUtility_lemma. Qed.
 Print Assumptions C16_queryUtility_from_listings.
 
+(* ---- the tie to the source TEXT.  Gen/ComponentsKernel.v is rewritten on every run by the
+   fail-closed translator harness/translate/components.py from the current registry.py; the
+   theorems below are re-checked against that text and say that what the source says IS the model
+   the theorems above are about -- for all states and arguments.  [gup], [gn], [gap], [gar] stand for
+   the inference helpers _getUtilityProvided, _getName, _getAdapterProvided, _getAdapterRequired,
+   which the model leaves out: the equalities are for calls that pass provided / required
+   explicitly ([gar] then only converts None to Interface) and components without a
+   __component_name__.  Still hand-modelled: rebuildUtilityRegistryFromLocalCache, the query
+   methods, __init__, the _utility_registrations_cache property, the inference helpers. *)
+Theorem C16_generated_counter_eq_model : forall l c n,
+  g_counter_init l = l /\ g_counter_getitem l c = cnt l c /\
+  g_counter_setitem l c n = cnt_set l c n /\ g_counter_delitem l c = cnt_del l c.
+Proof.
+  intros l c n. exact (conj (g_counter_init_eq l) (conj (g_counter_getitem_eq l c)
+                        (conj (g_counter_setitem_eq l c n) (g_counter_delitem_eq l c)))).
+Qed.
+Print Assumptions C16_generated_counter_eq_model.
+
+(* class _UtilityRegistrations: _is_utility_subscribed, __cache_utility (with the switch to the
+   counter), __uncache_utility, registerUtility, unregisterUtility *)
+Theorem C16_generated_utility_cache_eq_model : forall (W : world) (hashable : value -> bool) st C p n c i f,
+  g_is_utility_subscribed hashable C p c = is_subscribed hashable C p c /\
+  g_cache_utility hashable C p c = cache_utility hashable C p c /\
+  g_uncache_utility hashable C p c = uncache_utility hashable C p c /\
+  g_ur_registerUtility W hashable (c_utils st) (c_ureg st) (c_cache st) p n c i f
+  = (c_utils (ur_register W hashable st p n c i f), c_ureg (ur_register W hashable st p n c i f),
+     c_cache (ur_register W hashable st p n c i f)) /\
+  g_ur_unregisterUtility W hashable (c_utils st) (c_ureg st) (c_cache st) p n c
+  = (c_utils (fst (ur_unregister W hashable st p n c)), c_ureg (fst (ur_unregister W hashable st p n c)),
+     c_cache (fst (ur_unregister W hashable st p n c)), snd (ur_unregister W hashable st p n c)).
+Proof.
+  intros W hashable st C p n c i f.
+  exact (conj (g_is_utility_subscribed_eq hashable C p c) (conj (g_cache_utility_eq hashable C p c)
+        (conj (g_uncache_utility_eq hashable C p c) (conj (g_ur_registerUtility_eq W hashable st p n c i f)
+        (g_ur_unregisterUtility_eq W hashable st p n c))))).
+Qed.
+Print Assumptions C16_generated_utility_cache_eq_model.
+
+(* Components.registerUtility / unregisterUtility / registeredUtilities: component given, component
+   produced by factory= (identity f returning c), and both given (TypeError, nothing happens) *)
+Theorem C16_generated_utilities_eq_model :
+  forall (W : world) (hashable : value -> bool) (gup : value -> option spec) (gn : value -> name),
+  (forall c, gn c = 0) ->
+  forall st c c' co f p po n i ev,
+    g_registerUtility W hashable gup gn st (Some c) (Some p) n i true None = cstep W hashable st (RegUtility c p n i None) /\
+    g_registerUtility W hashable gup gn st None (Some p) n i true (Some (f, c)) = cstep W hashable st (RegUtility c p n i (Some f)) /\
+    g_registerUtility W hashable gup gn st (Some c') po n i ev (Some (f, c)) = cstep W hashable st (UtilityBoth false c' p n) /\
+    g_unregisterUtility W hashable gup st co (Some p) n None = cstep W hashable st (UnregUtility co p n) /\
+    g_unregisterUtility W hashable gup st None (Some p) n (Some (f, c)) = cstep W hashable st (UnregUtility (Some c) p n) /\
+    g_unregisterUtility W hashable gup st (Some c') po n (Some (f, c)) = cstep W hashable st (UtilityBoth true c' p n) /\
+    g_registeredUtilities st = registeredUtilities st.
+Proof.
+  intros W hashable gup gn Hgn st c c' co f p po n i ev.
+  exact (conj (g_registerUtility_eq W hashable gup gn Hgn st c p n i)
+        (conj (g_registerUtility_factory_eq W hashable gup gn Hgn st f c p n i)
+        (conj (g_registerUtility_both W hashable gup gn st f c c' po n i ev)
+        (conj (g_unregisterUtility_eq W hashable gup st co p n)
+        (conj (g_unregisterUtility_factory_eq W hashable gup st f c p n)
+        (conj (g_unregisterUtility_both W hashable gup st f c c' po n) (g_registeredUtilities_eq st))))))).
+Qed.
+Print Assumptions C16_generated_utilities_eq_model.
+
+Theorem C16_generated_adapters_eq_model :
+  forall (W : world) (gn : value -> name) (gap : value -> option spec)
+         (gar : option value -> option (list (option spec)) -> option (list spec)),
+  (forall c, gn c = 0) -> (forall f req, gar f (Some req) = Some (map conv req)) ->
+  forall st f fo req p n i,
+    g_registerAdapter W gn gap gar st f (Some req) (Some p) n i true = cstep W (fun _ => true) st (RegAdapter f req p n i) /\
+    g_unregisterAdapter W gap gar st fo (Some req) (Some p) n = cstep W (fun _ => true) st (UnregAdapter fo req p n) /\
+    g_registeredAdapters st = registeredAdapters st.
+Proof.
+  intros W gn gap gar Hgn Hgar st f fo req p n i.
+  exact (conj (g_registerAdapter_eq W gn gap gar Hgn Hgar st f req p n i)
+        (conj (g_unregisterAdapter_eq W gap gar Hgar st fo req p n) (g_registeredAdapters_eq st))).
+Qed.
+Print Assumptions C16_generated_adapters_eq_model.
+
+Theorem C16_generated_subscriptions_eq_model :
+  forall (W : world) (gap : value -> option spec)
+         (gar : option value -> option (list (option spec)) -> option (list spec)),
+  (forall f req, gar f (Some req) = Some (map conv req)) ->
+  forall st f fo req p n i,
+    g_registerSubscriptionAdapter W gap gar st f (Some req) (Some p) n i true = cstep W (fun _ => true) st (RegSub f req p n i) /\
+    g_unregisterSubscriptionAdapter W gap gar st fo (Some req) (Some p) n = cstep W (fun _ => true) st (UnregSub fo req p n) /\
+    g_registerHandler W gar st f (Some req) n i true = cstep W (fun _ => true) st (RegHandler f req n i) /\
+    g_unregisterHandler W gar st fo (Some req) n = cstep W (fun _ => true) st (UnregHandler fo req n) /\
+    g_registeredSubscriptionAdapters st = registeredSubscriptionAdapters st /\
+    g_registeredHandlers st = registeredHandlers st.
+Proof.
+  intros W gap gar Hgar st f fo req p n i.
+  exact (conj (g_registerSubscriptionAdapter_eq W gap gar Hgar st f req p n i)
+        (conj (g_unregisterSubscriptionAdapter_eq W gap gar Hgar st fo req p n)
+        (conj (g_registerHandler_eq W gar Hgar st f req n i)
+        (conj (g_unregisterHandler_eq W gar Hgar st fo req n)
+        (conj (g_registeredSubscriptionAdapters_eq st) (g_registeredHandlers_eq st)))))).
+Qed.
+Print Assumptions C16_generated_subscriptions_eq_model.
+
 (* ---- non-vacuity: a history with equal-but-distinct (1, 2) and unhashable (5, 6) components,
    a replacement, removals, adapters, subscription adapters and handlers meets the hypotheses and
    reaches a non-trivial state *)
@@ -214,3 +312,12 @@ Example C16_ex_query :
   queryUtility W0 (final W0 hashable0 ex_ops) 0 0 = Some (mkV 6 5) /\
   In 0 (iro W0 3) /\ queryUtility W0 (final W0 hashable0 ex_ops) 0 1 = None.
 Proof. vm_compute. repeat split. right. left. reflexivity. Qed.
+
+(* the hypotheses on the inference oracles are satisfiable: no __component_name__, and
+   _getAdapterRequired on an explicit ``required`` only maps None to Interface *)
+Example C16_ex_oracles :
+  (forall c : value, (fun _ : value => 0) c = 0) /\
+  (forall (f : option value) req,
+     (fun (_ : option value) (r : option (list (option spec))) => option_map (map conv) r) f (Some req)
+     = Some (map conv req)).
+Proof. split; reflexivity. Qed.
